@@ -46,6 +46,18 @@ def plan(tier, seed, kf_ids):
             elif w == 32 and not q and f in (0, w // 2, w):
                 for form in range(5):
                     jobs.append(A.div("c02", s, w, f, form, timeout=3000))
+    # 64- and 128-bit division: every dividend against constant power-of-two divisors (incl. -1 ulp, where min / -1 ulp
+    # and the dividend that scales to the minimum overflow); the general 64/128-bit divider is out of reach of SAT
+    for s, w in c.FAMILIES:
+        if w < 64:
+            continue
+        fr = [0, 1, w // 2, w - 1, w] if not q else [0, w // 2, w - 1, w]
+        for f in fr:
+            ks = [(0, False), (w // 2 - 1, False)] + ([(0, True), (w - 2, True)] if s == "I" else [(w - 1, False)])
+            if q:
+                ks = ks[:1] + ks[2:3] if f not in (w // 2,) else ks
+            for (k, neg) in ks:
+                jobs.append(A.div_pow2("c02", s, w, f, k, neg, timeout=1200))
     return {
         "feature": "c02",
         "jobs": jobs,
